@@ -277,11 +277,22 @@ write_header(struct archive_write *a, struct archive_entry *entry)
 		ret_final = ARCHIVE_WARN;
 	}
 
-	/* TODO: Set ret_final to ARCHIVE_WARN if any of these overflow. */
+	/* A value that overflows its field is stored as the largest one
+	 * the field holds, with a warning. */
 	format_hex(ino & 0xffffffff, h + c_ino_offset, c_ino_size);
 	format_hex(archive_entry_mode(entry), h + c_mode_offset, c_mode_size);
-	format_hex(archive_entry_uid(entry), h + c_uid_offset, c_uid_size);
-	format_hex(archive_entry_gid(entry), h + c_gid_offset, c_gid_size);
+	if (format_hex(archive_entry_uid(entry), h + c_uid_offset,
+	    c_uid_size)) {
+		archive_set_error(&a->archive, ERANGE,
+		    "Numeric user ID too large");
+		ret_final = ARCHIVE_WARN;
+	}
+	if (format_hex(archive_entry_gid(entry), h + c_gid_offset,
+	    c_gid_size)) {
+		archive_set_error(&a->archive, ERANGE,
+		    "Numeric group ID too large");
+		ret_final = ARCHIVE_WARN;
+	}
 	format_hex(archive_entry_nlink(entry), h + c_nlink_offset, c_nlink_size);
 	if (archive_entry_filetype(entry) == AE_IFBLK
 	    || archive_entry_filetype(entry) == AE_IFCHR) {
@@ -291,7 +302,12 @@ write_header(struct archive_write *a, struct archive_entry *entry)
 	    format_hex(0, h + c_rdevmajor_offset, c_rdevmajor_size);
 	    format_hex(0, h + c_rdevminor_offset, c_rdevminor_size);
 	}
-	format_hex(archive_entry_mtime(entry), h + c_mtime_offset, c_mtime_size);
+	if (format_hex(archive_entry_mtime(entry), h + c_mtime_offset,
+	    c_mtime_size)) {
+		archive_set_error(&a->archive, ERANGE,
+		    "File modification time out of range");
+		ret_final = ARCHIVE_WARN;
+	}
 	format_hex(pathlength, h + c_namesize_offset, c_namesize_size);
 	format_hex(0, h + c_checksum_offset, c_checksum_size);
 
